@@ -120,6 +120,11 @@ func main() {
 		o.def(f.def, "list (bool * bool)", clist(returnsOf(fd)))
 	}
 
+	// ---- stage sequence: which stage of the model each return statement belongs to, in source order
+	o.b.WriteString("(* the stage each return statement of actionLint / actionCI belongs to, in source order (\"nil\" = returns nil) *)\n")
+	o.def("lint_stage_seq", "list string", cstrs(stagesOf(findFunc(p, "", "actionLint"), strs)))
+	o.def("ci_stage_seq", "list string", cstrs(stagesOf(findFunc(p, "", "actionCI"), strs)))
+
 	// ---- threshold decisions
 	o.b.WriteString("(* (operator of `severity OP fail-on`, accumulation, final test): the decision between the last error return and `return nil` *)\n")
 	o.def("lint_threshold", "string * string * string", thresholdOf(findFunc(p, "", "actionLint"), strs))
@@ -419,6 +424,130 @@ func returnsOf(fd *ast.FuncDecl) []string {
 		fatal("%s: no return statements", fd.Name.Name)
 	}
 	return rows
+}
+
+// stagesOf names, for every return statement in source order, the stage of Model/ExitFlow.v it is: the callee whose error
+// is being returned (the last call assigned to err / ok before the return) decides; unknown callees are fatal, so a new
+// error path cannot appear unnoticed.
+func stagesOf(fd *ast.FuncDecl, strs map[string]string) []string {
+	stageOfCall := func(ce *ast.CallExpr) string {
+		fn := oneLine(src(ce.Fun))
+		switch {
+		case fn == "actionSetup":
+			return "SSetup"
+		case fn == "git.CurrentBranch":
+			return "SBranch"
+		case fn == "finder.Find" || strings.HasPrefix(fn, "discovery.NewGlobFinder("):
+			return "SFind"
+		case strings.HasPrefix(fn, "discovery.NewGitBranchFinder("):
+			return "SGitFind"
+		case fn == "gen.GenerateStatic":
+			return "SGenerate"
+		case fn == "checkRules":
+			return "SCheck"
+		case fn == "os.Create":
+			return "SOutputs"
+		case fn == "rep.Submit":
+			return "SSubmit"
+		case fn == "os.LookupEnv" || fn == "strconv.Atoi" || fn == "git.HeadCommit" || fn == "reporter.NewGitLabReporter" || fn == "reporter.NewGithubReporter":
+			return "SReporters"
+		case fn == "checks.ParseSeverity":
+			if len(ce.Args) == 1 {
+				if inner, ok := ce.Args[0].(*ast.CallExpr); ok && len(inner.Args) == 1 {
+					if id, ok := inner.Args[0].(*ast.Ident); ok {
+						switch strs[id.Name] {
+						case "fail-on":
+							return "SFailOn"
+						case "min-severity":
+							return "SMinSeverity"
+						}
+					}
+				}
+			}
+		}
+		fatal("%s: call %s at %s is not a stage the model knows", fd.Name.Name, fn, pos(ce))
+		return ""
+	}
+	lastErr, lastOk := "", ""
+	var seq []string
+	note := func(as *ast.AssignStmt) {
+		if len(as.Rhs) != 1 {
+			return
+		}
+		ce, ok := as.Rhs[0].(*ast.CallExpr)
+		if !ok {
+			return
+		}
+		for _, l := range as.Lhs {
+			if id, ok := l.(*ast.Ident); ok {
+				switch id.Name {
+				case "err":
+					lastErr = stageOfCall(ce)
+				case "ok":
+					if oneLine(src(ce.Fun)) == "os.LookupEnv" {
+						lastOk = stageOfCall(ce)
+					}
+				}
+			}
+		}
+	}
+	var walk func(n ast.Node, guard string)
+	walk = func(n ast.Node, guard string) {
+		switch x := n.(type) {
+		case nil:
+		case *ast.FuncLit:
+		case *ast.AssignStmt:
+			note(x)
+		case *ast.ReturnStmt:
+			last := x.Results[len(x.Results)-1]
+			if id, ok := last.(*ast.Ident); ok && id.Name == "nil" {
+				seq = append(seq, "nil")
+				return
+			}
+			switch {
+			case guard == "err != nil":
+				if lastErr == "" {
+					fatal("%s: return at %s: no call assigned to err before it", fd.Name.Name, pos(x))
+				}
+				seq = append(seq, lastErr)
+			case guard == "!ok":
+				if lastOk == "" {
+					fatal("%s: return at %s: no os.LookupEnv before it", fd.Name.Name, pos(x))
+				}
+				seq = append(seq, lastOk)
+			case strings.HasPrefix(guard, "len(") && strings.HasSuffix(guard, "== 0"):
+				seq = append(seq, "SArgs")
+			case !strings.Contains(guard, "err") && !strings.Contains(guard, "ok") && guard != "" && guard != "else" && guard != "loop":
+				seq = append(seq, "SThreshold") // the shape of this test is checked by thresholdOf
+			default:
+				fatal("%s: return at %s under guard %q is not a stage the model knows", fd.Name.Name, pos(x), guard)
+			}
+		case *ast.IfStmt:
+			walk(x.Init, guard)
+			g := oneLine(src(x.Cond))
+			for _, st := range x.Body.List {
+				walk(st, g)
+			}
+			if x.Else != nil {
+				walk(x.Else, "else")
+			}
+		case *ast.BlockStmt:
+			for _, st := range x.List {
+				walk(st, guard)
+			}
+		case *ast.ForStmt:
+			walk(x.Body, guard)
+		case *ast.RangeStmt:
+			walk(x.Body, guard)
+		case *ast.LabeledStmt:
+			walk(x.Stmt, guard)
+		}
+	}
+	if fd == nil {
+		fatal("stagesOf: function not found")
+	}
+	walk(fd.Body, "")
+	return seq
 }
 
 // thresholdOf recognises
